@@ -184,7 +184,7 @@ theorem close_set_bounded :
     · rw [List.mem_take_iff_getElem] at h1
       obtain ⟨j, hj, hje⟩ := h1
       have hjl : j < ps.length := by omega
-      have := (List.Nodup.getElem_inj_iff hnd (hi := hjl) (hj := h)).mp hje
+      have := (List.getElem_inj (h₀ := hjl) (h₁ := h) hnd).mp hje
       rw [hk] at hi
       omega
 
